@@ -128,7 +128,7 @@ class Evaluator:
                 return ("builtin", "Tensor.from_lol")
             if isinstance(v, str) and e.attr == "join":
                 return ("strjoin", v)
-            if isinstance(v, dict) and e.attr in ("keys", "values", "items", "get", "setdefault", "pop", "update"):
+            if isinstance(v, dict) and e.attr in ("keys", "values", "items", "get", "setdefault", "pop", "update", "copy"):
                 return ("dictmethod", v, e.attr)
             if isinstance(v, list) and e.attr == "append":
                 return ("listappend", v)
@@ -177,10 +177,26 @@ class Evaluator:
                 if all(self.truth(self.ev(c, env2)) for c in g.ifs):
                     out[self.ev(e.key, env2)] = self.ev(e.value, env2)
             return out
-        if isinstance(e, ast.Tuple):
-            return tuple(self.ev(x, env) for x in e.elts)
-        if isinstance(e, ast.List):
-            return [self.ev(x, env) for x in e.elts]
+        if isinstance(e, (ast.Tuple, ast.List, ast.Set)):
+            items = []
+            for x in e.elts:
+                if isinstance(x, ast.Starred):
+                    items.extend(self.iterate(self.ev(x.value, env), x.value))
+                else:
+                    items.append(self.ev(x, env))
+            if isinstance(e, ast.Tuple):
+                return tuple(items)
+            if isinstance(e, ast.List):
+                return items
+            try:
+                return set(items)
+            except TypeError as ex:
+                raise Uninterpretable(f"set of unhashable model values in {ast.unparse(e)}") from ex
+        if isinstance(e, ast.SetComp):
+            try:
+                return set(self.comp(e, env))
+            except TypeError as ex:
+                raise Uninterpretable("set comprehension of unhashable model values") from ex
         if isinstance(e, ast.JoinedStr):
             out = ""
             for v in e.values:
@@ -202,6 +218,13 @@ class Evaluator:
                 return l - r
             if isinstance(e.op, ast.BitOr) and isinstance(l, dict) and isinstance(r, dict):
                 return {**l, **r}
+            if isinstance(l, (set, frozenset)) and isinstance(r, (set, frozenset)):
+                if isinstance(e.op, ast.BitOr):
+                    return set(l) | set(r)
+                if isinstance(e.op, ast.BitAnd):
+                    return set(l) & set(r)
+                if isinstance(e.op, ast.Sub):
+                    return set(l) - set(r)
             raise Uninterpretable(f"binop {ast.unparse(e)}")
         if isinstance(e, ast.BoolOp):
             if isinstance(e.op, ast.And):
@@ -435,6 +458,8 @@ class Evaluator:
             if m == "update":
                 d.update(*args, **kwargs)
                 return None
+            if m == "copy":
+                return dict(d)
         if isinstance(f, tuple) and f[0] == "setmethod":
             st, m = f[1], f[2]
             if m == "update":
